@@ -6,6 +6,7 @@ Model: DTML/Render.lean (`callStack` = the namespace String.__call__ builds, `in
 -/
 import DTML.Render
 import DTML.Props.C08
+import DTML.Lemmas.Cache
 set_option linter.unusedVariables false
 namespace DTML.Props.C02
 open DTML.Render
@@ -317,6 +318,161 @@ theorem block_bindings_end (env : Env) (fuel : Nat) (b : Blk) (st : St) (n : Tex
 /-- an attribute cache does not change what a frame offers -/
 theorem offer_erase (n : Text) (f : Frame) : frameOffer n (C08.erase f) = frameOffer n f := by
   cases f <;> rfl
+
+
+/-! #### … on the namespace as it really is after the block (attribute caches included) -/
+
+/-- the frames a running render holds: dictionaries, and instances whose attribute cache only
+repeats the object's own public attributes (an invariant of every interpreter function:
+`Lemmas.Cache.all_cons`) -/
+def Consistent : Frame → Prop
+  | .dict _ => True
+  | .inst v c => Lemmas.Cache.ConsF (.inst v c)
+  | _ => False
+
+theorem fresh_consistent (f : Frame) (h : Fresh f) : Consistent f := by
+  cases f with
+  | dict _ => trivial
+  | inst v c => simp only [Fresh] at h; subst h; exact Lemmas.Cache.consF_fresh v
+  | seq _ => exact h.elim
+  | bad => exact h.elim
+
+/-- without a guard a consistent frame answers exactly with what it offers, cache or no cache -/
+theorem frameGet_consistent (env : Env) (hg : env.guardOn = false) (f : Frame) (hf : Consistent f) (n : Text)
+    (tr : List Event) :
+    (match frameOffer n f with
+     | some v => ∃ f', frameGet env f n tr = (.val v f', tr)
+     | none => frameGet env f n tr = (.missing, tr)) := by
+  cases f with
+  | dict kvs => exact frameGet_fresh env hg (.dict kvs) trivial n tr
+  | seq sv => exact hf.elim
+  | bad => exact hf.elim
+  | inst v c =>
+    cases hc : c.lookup n with
+    | none =>
+      simp only [frameOffer, clientAttr, frameGet, hc, hg]
+      by_cases hu : n.head? = some '_'
+      · simp only [hu, if_true]
+        by_cases hs : n = "__str__".toList
+        · simp [hs]
+        · simp at hs
+          simp [hs]
+      · simp only [hu, if_false]
+        cases v <;> simp
+        rename_i id attrs
+        cases attrs.lookup n <;> simp
+    | some a =>
+      simp only [frameGet, hc, frameOffer]
+      cases v with
+      | obj id attrs =>
+        obtain ⟨h1, h2⟩ := hf n a hc
+        simp only [clientAttr, h2, if_false, h1]
+        exact ⟨_, rfl⟩
+      | _ =>
+        simp only [Consistent, Lemmas.Cache.ConsF] at hf
+        subst hf
+        simp [List.lookup] at hc
+
+/-- **Innermost first, on any namespace a render can hold** (`lookup_first_offer` without the
+fresh-cache restriction) -/
+theorem lookup_first_offer_consistent (env : Env) (hg : env.guardOn = false) :
+    ∀ (fs : List Frame), (∀ f ∈ fs, Consistent f) → ∀ (n : Text) (tr : List Event),
+    (match fs.findSome? (frameOffer n) with
+     | some v => ∃ fs', lookupStack env fs n tr = (.val v fs', tr)
+     | none => lookupStack env fs n tr = (.missing, tr)) := by
+  intro fs
+  induction fs with
+  | nil => intro _ n tr; simp [lookupStack]
+  | cons f fs ih =>
+    intro hfr n tr
+    have hf := frameGet_consistent env hg f (hfr f (List.mem_cons_self ..)) n tr
+    have ih' := ih (fun g hg' => hfr g (List.mem_cons_of_mem _ hg')) n tr
+    simp only [List.findSome?_cons]
+    cases ho : frameOffer n f with
+    | some v =>
+      rw [ho] at hf
+      obtain ⟨f', hf'⟩ := hf
+      simp only [lookupStack, hf']
+      exact ⟨_, rfl⟩
+    | none =>
+      rw [ho] at hf
+      simp only [lookupStack, hf]
+      cases hr : fs.findSome? (frameOffer n) with
+      | some v =>
+        rw [hr] at ih'
+        obtain ⟨fs', h'⟩ := ih'
+        simp only [h']
+        exact ⟨_, rfl⟩
+      | none =>
+        rw [hr] at ih'
+        simp only [ih']
+
+private theorem consistent_of_erase (f g : Frame) (he : C08.erase g = C08.erase f) (hf : Consistent f)
+    (hg : Lemmas.Cache.ConsF g) : Consistent g := by
+  cases f <;> cases g <;> simp [C08.erase] at he <;> first | trivial | exact hf.elim | exact hg
+
+private theorem consistent_of_map_erase : ∀ (fs gs : List Frame), gs.map C08.erase = fs.map C08.erase →
+    (∀ f ∈ fs, Consistent f) → (∀ g ∈ gs, Lemmas.Cache.ConsF g) → ∀ g ∈ gs, Consistent g := by
+  intro fs
+  induction fs with
+  | nil => intro gs he _ _ g hg; cases gs <;> simp at he; cases hg
+  | cons f fs ih =>
+    intro gs he hf hc g hg
+    cases gs with
+    | nil => cases hg
+    | cons g0 gs =>
+      simp only [List.map_cons, List.cons.injEq] at he
+      rcases List.mem_cons.mp hg with rfl | hg
+      · exact consistent_of_erase f _ he.1 (hf f (List.mem_cons_self ..)) (hc _ (List.mem_cons_self ..))
+      · exact ih gs he.2 (fun x hx => hf x (List.mem_cons_of_mem _ hx))
+          (fun x hx => hc x (List.mem_cons_of_mem _ hx)) g hg
+
+private theorem findSome_erase (n : Text) (fs : List Frame) :
+    (fs.map C08.erase).findSome? (frameOffer n) = fs.findSome? (frameOffer n) := by
+  induction fs with
+  | nil => rfl
+  | cons f fs ih => simp only [List.map_cons, List.findSome?_cons, offer_erase, ih]
+
+/-- **After the block's end tag every name resolves as before the block** — on the actual
+namespace the block leaves behind (caches filled by the block included): whatever the block
+was, whatever it bound, and however it ended (normally, by an error, or out of fuel), a lookup
+of any name in the namespace after it yields exactly what the namespace before it offered. -/
+theorem block_bindings_end_real (env : Env) (hg : env.guardOn = false) (fuel : Nat) (b : Blk) (st : St)
+    (hc : ∀ f ∈ st.stack, Consistent f) (n : Text) (tr : List Event) :
+    (match st.stack.findSome? (frameOffer n) with
+     | some v => ∃ fs', lookupStack env (renderBlk env fuel b st).2.stack n tr = (.val v fs', tr)
+     | none => lookupStack env (renderBlk env fuel b st).2.stack n tr = (.missing, tr)) := by
+  have hcons : Lemmas.Cache.Cons st := by
+    intro f hf
+    have := hc f hf
+    cases f <;> first | trivial | exact this
+  have h1 := (Lemmas.Cache.all_cons env fuel).renderBlk b st hcons
+  have h2 := (C08.block_preserves_stack env fuel b st).1
+  have h3 := consistent_of_map_erase st.stack _ h2 hc h1
+  have h4 := lookup_first_offer_consistent env hg _ h3 n tr
+  have h5 : (renderBlk env fuel b st).2.stack.findSome? (frameOffer n) = st.stack.findSome? (frameOffer n) := by
+    rw [← findSome_erase, h2, findSome_erase]
+  rw [h5] at h4
+  exact h4
+
+/-- the same for a whole section of blocks, and for the namespace a top-level call builds -/
+theorem section_bindings_end_real (env : Env) (hg : env.guardOn = false) (fuel : Nat) (bs : List Blk) (st : St)
+    (hc : ∀ f ∈ st.stack, Consistent f) (n : Text) (tr : List Event) :
+    (match st.stack.findSome? (frameOffer n) with
+     | some v => ∃ fs', lookupStack env (renderBlocks env fuel bs st).2.stack n tr = (.val v fs', tr)
+     | none => lookupStack env (renderBlocks env fuel bs st).2.stack n tr = (.missing, tr)) := by
+  have hcons : Lemmas.Cache.Cons st := by
+    intro f hf
+    have := hc f hf
+    cases f <;> first | trivial | exact this
+  have h1 := (Lemmas.Cache.all_cons env fuel).renderBlocks bs st hcons
+  have h2 := (C08.render_preserves_stack env fuel bs st).1
+  have h3 := consistent_of_map_erase st.stack _ h2 hc h1
+  have h4 := lookup_first_offer_consistent env hg _ h3 n tr
+  have h5 : (renderBlocks env fuel bs st).2.stack.findSome? (frameOffer n) = st.stack.findSome? (frameOffer n) := by
+    rw [← findSome_erase, h2, findSome_erase]
+  rw [h5] at h4
+  exact h4
 
 /-! #### callables: called by tags, passed uncalled to expressions -/
 
